@@ -17,7 +17,8 @@ RULE = (
     "parameters, target). Oracle: the kernels and weights are read from Combiner(esf).collect_elems(); for each kernel, "
     "order and basis function the convolution integral (regular, plus-distribution with its subtraction, local term) is "
     "recomputed by an independent engine (variable u=c/z, pieces between consecutive grid nodes, own Lagrange basis, scipy "
-    "quad per piece at 1e-10, partonic thresholds as extra break points) at a convolution point typed independently (x; "
+    "quad per piece at 1e-10, partonic thresholds as extra break points; the local term is not taken from the kernel's loc(x) but "
+    "rebuilt as delta - int_0^c sing) at a convolution point typed independently (x; "
     "x(1+m2/Q2) for CC heavy; x(1+sqrt(1+4m2/Q2))/2 for NC intrinsic) and multiplied by that point; the weighted sum over "
     "kernels must equal the returned operator entry by entry. Non-trivial = some kernel with a singular or local part at "
     "order>=1 contributes a non-zero entry."
@@ -109,7 +110,7 @@ def check_case(case):
                     rsl = guarded(ker.coeff[o])
                     if rsl is None:
                         continue
-                    ival, isca = conv_ref.convolve(rsl, b, c, zbreaks=zthr if family == "heavy" else ())
+                    ival, isca = conv_ref.convolve(rsl, b, c, zbreaks=zthr if family == "heavy" else (), derive_loc=True)
                     ref[o] = ref.get(o, 0.0) + np.outer(part, c * ival)
                     sca[o] = sca.get(o, 0.0) + np.outer(np.abs(part), c * isca)
                     if o >= 1 and (rsl.sing is not None or rsl.loc is not None) and np.any(ival != 0) and np.any(part != 0):
